@@ -4,7 +4,10 @@
 
 //! Elementos opacos: Wall, Shade y sus objetos asociados, Geometry
 
+#[cfg(not(kani))]
 use std::collections::BTreeMap;
+#[cfg(kani)]
+use crate::kani_models::BTreeMap;
 
 use serde::{Deserialize, Serialize};
 
